@@ -74,6 +74,14 @@ def parse_records(lines):
     return recs
 
 
+def fmt_time(ns):
+    """parse_time accepts at most 3 digits before the unit"""
+    for unit, f in (("ns", 1), ("us", 1000), ("ms", 10**6), ("s", 10**9)):
+        if ns % f == 0 and ns // f < 1000:
+            return "%d%s" % (ns // f, unit)
+    raise ValueError("time %d not expressible for parse_time" % ns)
+
+
 def cfg_env(cfg):
     """cfg (see props/c05.py) -> environment for libmcount"""
     env = {}
@@ -92,7 +100,7 @@ def cfg_env(cfg):
         if tr.get("depth") is not None:
             acts.append("depth=%d" % tr["depth"])
         if tr.get("time") is not None:
-            acts.append("time=%dns" % tr["time"])
+            acts.append("time=" + fmt_time(tr["time"]))
         if tr.get("size") is not None:
             acts.append("size=%d" % tr["size"])
         if tr.get("trace_on"):
